@@ -8,6 +8,11 @@ prop("C11", "exploration",
      "layouts with any tube type, with gaps and optionally interleaved honest traffic, and (one case in three) further frames - biased to REQ - injected WHILE the muxer is stopping and the peer withholds its answers - for good (Stop ends through its forced close) or, "
      "in six of ten such cases, until a drawn moment 60-900 ms after Stop began, when the peer completes the close handshake of every "
      "tube that was open when Stop began and of none it requested afterwards (Stop ends gracefully, before the forced close). "
+     "One case in four: THE APPLICATION DOES NOT READ - before the drawn frames the peer opens 1-2 further tubes (unreliable or reliable) "
+     "which the application accepts and then neither reads nor closes, and fills each up to the bound the implementation has for unread "
+     "input, +-1 and beyond: the receive queue of an unreliable tube (maxBufferedPackets messages of 0-1200 bytes), the reassembly window "
+     "of a reliable tube (maxWindowSize out-of-order frames behind a missing first frame) or an in-order backlog of that many frames; then "
+     "the drawn frames follow (also those injected while stopping), each aimed at one of these tubes with probability 1/2, all other fields as drawn. "
      "Oracle: no panic, also not in a timer/sender goroutine during the 3 virtual minutes the case keeps running after Stop; the "
      "control tube moves fresh data both ways during and after the junk; Muxer.Stop returns within 10 virtual seconds; when Stop has "
      "returned no tube that is still registered or was ever handed out by Accept is open (white box: closed channel), and Accept has "
@@ -24,6 +29,7 @@ prop("C11", "exploration",
      "Non-trivial there = input whose length fields disagree with its size.",
      ["junk never addresses the honest control tube's own (reliability, id): an authenticated peer can always disturb a tube it owns",
       "the application keeps calling Accept (as hopserver's session loop does)",
+      "a tube the application holds without reading is still closed by Muxer.Stop; nothing is claimed about the content such a tube would deliver",
       "32-bit length fields are capped at 32 MiB in the decoder harness (a literal 0xFFFFFFFF made unfixed GetCmd allocate 24 GB and get the test process killed)"],
      [dict(name="muxer", pkg="tubes", run="^TestVerifC11Muxer$", shards=dict(quick=16, thorough=16), thorough_scale=40, timeout=dict(quick=900, thorough=7200)),
       dict(name="dec-common", pkg="common", run="^TestVerifC11Dec", shards=dict(quick=4, thorough=8), thorough_scale=100),
